@@ -25,8 +25,9 @@ RECURSIVE XConst(_, _), XDiag(_, _)
 RECURSIVE Pow16(_)
 Pow16(n) == IF n = 0 THEN 1 ELSE 16 * Pow16(n - 1)
 \* bdt16[i] = 16 * (sde drift at the left end point of step i) * dt_i ; it is not multiplied by a(t, X)
-XConst(k, i) == IF i = 0 THEN 16 * H.x0 ELSE XConst(k, i - 1) + H.c * H.dy16[k][i] + H.bdt16[i]
-XDiag(k, i) == IF i = 0 THEN H.x0 ELSE XDiag(k, i - 1) * (16 + H.dy16[k][i]) + H.bdt16[i] * Pow16(i - 1)
+X0(k) == IF "x0s" \in DOMAIN H THEN H.x0s[k] ELSE H.x0            \* one initial value per component (2-d drivers)
+XConst(k, i) == IF i = 0 THEN 16 * X0(k) ELSE XConst(k, i - 1) + H.c * H.dy16[k][i] + H.bdt16[i]
+XDiag(k, i) == IF i = 0 THEN X0(k) ELSE XDiag(k, i - 1) * (16 + H.dy16[k][i]) + H.bdt16[i] * Pow16(i - 1)
 Expected(k, i) == IF H.coef = "const" THEN XConst(k, i) ELSE XDiag(k, i)
 EulerOK == /\ Len(E.x) = Len(H.dy16)
            /\ \A k \in 1..Len(E.x) : /\ Len(E.x[k]) = Len(H.dy16[k]) + 1
